@@ -46,6 +46,11 @@ def ArrMem.after (dflt : D) : ArrMem D → List (List (Op D)) → ArrMem D
 def ArrMem.observe (dflt : D) (L : Nat) (m : ArrMem D) (cs : List (List (Op D))) : List (Option (List D)) :=
   List.replicate L none ++ (ArrMem.run dflt m cs).map some
 
+/-- the array at power-on: the declared initial contents are present iff the memory is initialised at power-on (ROMs always are,
+RAMs iff the write clock's `initializeMemory` is set); an uninitialised word promises nothing (`dflt` = undefined) -/
+def ArrMem.init (dflt : D) (declared : List D) (initialised : Bool) : ArrMem D :=
+  ⟨if initialised then declared else List.replicate declared.length dflt⟩
+
 /-- all addresses of a cycle are in range -/
 def Op.inRange (depth : Nat) : Op D → Prop
   | .rd a => a < depth
